@@ -53,3 +53,18 @@ func OPABuiltinNames() []string {
 	}
 	return out
 }
+
+var regoParseCache sync.Map
+
+// regoParseError runs the linked OPA's parser alone ("" when the text parses).
+func regoParseError(code string) string {
+	if v, ok := regoParseCache.Load(code); ok {
+		return v.(string)
+	}
+	msg := ""
+	if _, err := ast.ParseModule("m.rego", code); err != nil {
+		msg = err.Error()
+	}
+	regoParseCache.Store(code, msg)
+	return msg
+}
